@@ -49,6 +49,10 @@ CHECKS = {
                 technique="differential exploration of all edit histories (C01 alphabet + one-shot-iterable and field-setter calls) executed plainly vs inside one / nested journals vs with an exception thrown out of the journal block at every position; class-table identity check after every exit",
                 text="Every history up to depth 2 (quick: depth 2 below one representative of every call-site class of one seed, depth 1 everywhere; thorough: depth 2 everywhere, six seeds) is replayed on fresh real objects in >= 6 variants. Outcomes (return/exception per call) and the final canonical state must equal the plain run; the entries recorded during each public call must match, as a multiset of target classes, the instrumented calls logged by an independent call logger in the plain run (entries of raising calls tolerated); outer journals keep recording while inner ones are active; after every exit (normal, nested, by exception) every attribute of every IR class is the original function object / property triple; after dropping the world no entry keeps an IR object alive; a left journal records nothing.",
                 note="The set of instrumented operations is read from the library's own table; entry matching is per public call, by target class."),
+    "C13": dict(level="model_checking", engine="E1-edit", design="4/C13",
+                technique="exhaustive enumeration of (source model x clone variant) states and of every single edit of an edit catalogue at every object of either side, with full-snapshot comparison of the untouched side",
+                text="Every model of the C02 feature catalogue (plus a source whose body nodes are sharded on captured values) is deserialised and cloned through every variant (Model.clone shallow/deep, Graph.clone, Graph.clone(allow_outer_scope_values) and strict clone of every nested body, Function.clone, GraphView.clone, functionalize). Checked: byte-identical serialisation, disjoint identity sets of graphs/nodes/values/shapes/types/metadata containers/attribute containers, no reference from the clone into the original except declared outer values, strict clones with outer references raise; then each of 36 edits (names, dtype/type/denotation, shape/dims/denotations, const_value, doc, metadata_props, meta incl. validity, attributes, inputs/outputs/uses, device annotations, node list, graph collections and fields) is applied at every object of the clone - and symmetrically of the original - and the other side's complete public snapshot must be unchanged.",
+                note="Sources are sorted first (cloner precondition); tensors may be shared, so a shared tensor's own name is not compared; depth-1 edits."),
 }
 
 NOT_YET = {}
@@ -94,6 +98,8 @@ def main():
              "kind_free_text": "small-scope exhaustive input/structure enumeration with independent reference oracles"},
             {"name": "E5-fsfault", "path": "mc/fsfault.py", "serves_properties": ["C08"],
              "kind_free_text": "file-system effect interception + exhaustive fault/crash/torn-write plans"},
+            {"name": "E1-edit", "path": "mc/props/c13.py", "serves_properties": ["C13"],
+             "kind_free_text": "state x single-edit enumeration with snapshot comparison"},
             {"name": "E4-sched", "path": "mc/sched.py", "serves_properties": ["C09"],
              "kind_free_text": "cooperative baton scheduler for real threads + stateless DFS with delay/preemption bounding"},
         ],
